@@ -99,8 +99,7 @@ theorem updateStamp_csum (w : World) (f : Nat) (r : Rec) (R : Nat) : (updateStam
   dsimp only
   split <;> rfl
 
-theorem setStatic_csum (w : World) (f : Nat) (r : Rec) (R : Nat) : (setStatic w f r R).csum = r.csum :=
-  updateStamp_csum w f r R
+theorem setStatic_csum (w : World) (f : Nat) (r : Rec) (R : Nat) : (setStatic w f r R).csum = none := rfl
 
 theorem setFailed_csum (w : World) (f : Nat) (r : Rec) (R : Nat) : (setFailed w f r R).csum = r.csum :=
   updateStamp_csum w f r R
@@ -286,12 +285,12 @@ theorem ssBuild_agree (N : Nat) (E1 E2 : Engine) (d : Defects) (cx : Ctx) (t : N
   | none =>
     dsimp only
     split
-    · exact ⟨rfl, h1.setRec t _ (fun hn => by rw [setStatic_csum]; exact hsf hn)⟩
+    · exact ⟨rfl, h1.setRec t _ (fun _ => setStatic_csum _ _ _ _)⟩
     · exact ⟨rfl, h1.setRec t _ (fun hn => by rw [setFailed_csum]; exact hsf hn)⟩
   | some dof =>
     dsimp only
     have h3 : WInv nc N (ev (setRec w1 dof (setStatic w1 dof (w1.recs dof) cx.runid)) (.ran t)) :=
-      (h1.setRec dof _ (fun hn => by rw [setStatic_csum]; exact h1.nocsum hn dof)).ev _
+      (h1.setRec dof _ (fun _ => setStatic_csum _ _ _ _)).ev _
     generalize ev (setRec w1 dof (setStatic w1 dof (w1.recs dof) cx.runid)) (.ran t) = w3 at h3 ⊢
     refine ssRun_agree N E1 E2 d cx t sf _ w3 hE ?_ hsf h3
     split
@@ -322,7 +321,7 @@ theorem startSelf_agree (N : Nat) (E1 E2 : Engine) (d : Defects) (cx : Ctx) (t :
   split
   · refine ⟨rfl, hg.setRec t _ (fun hn => ?_)⟩
     split
-    · rw [setStatic_csum]; exact hsf hn
+    · exact setStatic_csum _ _ _ _
     · exact hsf hn
   · exact ssBuild_agree N E1 E2 d cx t sf w1 hE hsf hg
 
